@@ -85,6 +85,7 @@ func TestVerifC16(t *testing.T) {
 	queueFamilies(t)
 	ringFamilies(t)
 	setFamilies(t)
+	extFamilies(t)
 
 	kit.End()
 }
